@@ -84,8 +84,9 @@ func (c *CollectionChange) include(includeFunc FilterFunc) (newChange *Collectio
 		return c, true
 	}
 
-	oldInclude := includeFunc(c.Id, c.OldValue)
-	newInclude := includeFunc(c.Id, c.NewValue)
+	// an absent value is never included (List only shows stored items), whatever includeFunc says about nil
+	oldInclude := c.OldValue != nil && includeFunc(c.Id, c.OldValue)
+	newInclude := c.NewValue != nil && includeFunc(c.Id, c.NewValue)
 	if oldInclude == newInclude {
 		// the only time we want to skip sending the update is if both the old and new values are excluded
 		return c, newInclude
